@@ -7,6 +7,10 @@ R04.4 every returned temperature is a root of that residual or is accompanied by
 R04.5 orientation: profiles with end points put the T-/low-T item first and the T+/high-T item last
 R04.6 the minimised and the root-solved function are the same residual with the same data
 R04.7 the out-of-equilibrium T30 / T33 assembled from the moments equal the direct integral of p^mu p^nu deltaF (shared with C13)
+
+Recognition is by role, not by spelling: locals are identified by what is assigned to them (result of minimize_scalar / root_scalar,
+tuple position of a known API call, `c1 - T30_out`, ...), expressions are compared through normal forms (`nf.eqx` / `nf.match`) that look
+through temporaries and simple helpers, and the residual function may be a lambda or a local closure.
 """
 from __future__ import annotations
 
@@ -17,23 +21,33 @@ import sympy as sp
 from ..core import AnchorMissing, Check, Undecided, calls_in, dotted, kwarg, own_nodes, src, walk_guarded
 from ..flow import CFG
 from ..hydro import n, same_term
+from ..nf import Ctx, eqx, has, match, same
 from ..terms import Extractor, SUM, is_zero
 
 LEVEL = "other"
 EOM = "equationOfMotion:EOM"
 ROLE_NAMES = {"c1", "c2", "velocityMid", "Tplus", "Tminus", "vevLowT", "vevHighT", "s1", "s2", "fields", "dPhidz"}
-ALIASES = {"dfieldsdz": "dPhidz"}
+# roles of the elements of tuples returned by the public API (return order)
+RET_ROLES = {"findHydroBoundaries": ("c1", "c2", "Tplus", "Tminus", "velocityMid"), "wallProfile": ("fields", "dPhidz")}
+
+
+def _params(fi) -> list[str]:
+    return [p for p in fi.params() if p not in ("self", "cls")]
 
 
 def r04_12(chk: Check):
     S = chk.src
-    ex = Extractor(S, positive={"T"})
     fv = S.func(f"{EOM}.plasmaVelocity")
     fl = S.func(f"{EOM}.temperatureProfileEqLHS")
     chk.touch(fv.name, fl.name)
-    v = ex.single(fv)
-    T, s1, s2 = ex.sym("T"), ex.sym("s1"), ex.sym("s2")
-    dVdT = sp.Function("thermo.effectivePotential.derivT")(ex.sym("fields"), T)
+    pv, pl = _params(fv), _params(fl)
+    if len(pv) != 3 or len(pl) != 5:
+        raise AnchorMissing("plasmaVelocity(fields, T, s1) / temperatureProfileEqLHS(fields, dPhidz, T, s1, s2): parameter lists changed")
+    # parameters are addressed by position; the symbols below are the roles
+    ex = Extractor(S, positive={"T"})
+    fields, dphi, T, s1, s2 = ex.sym("fields"), ex.sym("dPhidz"), ex.sym("T"), ex.sym("s1"), ex.sym("s2")
+    v = ex.single(fv, dict(zip(pv, (fields, T, s1))))
+    dVdT = sp.Function("thermo.effectivePotential.derivT")(fields, T)
     chk.ob("R04.1", fv.where(), "plasmaVelocity uses the enthalpy w = -T dV/dT(fields, T) of the potential at the local field value",
            v.has(dVdT), str(v)[:160], key="enthalpy-def")
     W = sp.Symbol("W", positive=True)
@@ -43,7 +57,8 @@ def r04_12(chk: Check):
     ok, how = is_zero(res, chk.seed)
     chk.ob("R04.1", fv.where(), "v(T) satisfies w gamma^2(v) v == s1  (the T30 equation), for either sign of s1", ok, how, key="T30", how=how)
     # R04.2
-    ps = [p for p in ex.paths(fl) if p.raised is None]
+    ps = [p for p in ex.paths(fl, dict(zip(pl, (fields, dphi, T, s1, s2)))) if p.raised is None]
+
     def strip0(e):
         if isinstance(e, sp.Basic) and isinstance(e, sp.core.function.AppliedUndef) and e.func.__name__ == "getitem" and e.args[1] == 0:
             return e.args[0]
@@ -54,162 +69,457 @@ def r04_12(chk: Check):
     if len(vals) != 1:
         raise Undecided(f"temperatureProfileEqLHS: return branches differ: {vals}")
     lhs = ps[0].value
-    V = sp.Function("thermo.effectivePotential.evaluate")(ex.sym("fields"), T)
+    V = sp.Function("thermo.effectivePotential.evaluate")(fields, T)
     K = lhs.subs({dVdT: 0, V: 0, s1: 0, s2: 0})
     ref = K - V + W * vv**2 / (1 - vv**2) - s2
     ok, how = is_zero(sp.simplify(lhs.subs(dVdT, -W / T).subs(s1, S1) - sp.radsimp(ref)), chk.seed)
     chk.ob("R04.2", fl.where(), "LHS == kinetic - V(fields, T) + w gamma^2 v^2 - s2 with v = v(T) of R04.1  (the T33 equation)", ok, how,
            key="T33", how=how)
-    dphi = ex.sym("dPhidz")
     okk = sp.simplify(K - sp.Rational(1, 2) * SUM(dphi**2)) == 0
     chk.ob("R04.2", fl.where(), "kinetic term == (1/2) sum over fields of (dphi/dz)^2", okk, str(K), key="kinetic")
     chk.floor("R04.1", 2)
     chk.floor("R04.2", 2)
 
 
-def r04_3(chk: Check):
+# ------------------------------------------------------------------------------------------------ the point solver: roles of its locals
+
+
+class _Point:
+    """findPlasmaProfilePoint: its parameters (by position) and the roles of its locals"""
+
+    def __init__(self, S):
+        self.S = S
+        self.fp = fp = S.func(f"{EOM}.findPlasmaProfilePoint")
+        self.cx = Ctx(S, fp)
+        prm = _params(fp)
+        if len(prm) != 9:
+            raise AnchorMissing("findPlasmaProfilePoint: parameter list changed (expected index, c1, c2, velocityMid, fields, dPhidz, offEquilDeltas, Tplus, Tminus)")
+        self.C1, self.C2, self.F, self.D = prm[1], prm[2], prm[4], prm[5]
+        self.TP, self.TM = prm[7], prm[8]
+        # the out-of-equilibrium stress: (T30, T33) = self.deltaToTmunu(...)
+        self.out = None
+        for st in own_nodes(fp.node):
+            if isinstance(st, ast.Assign) and isinstance(st.value, ast.Call) and eqx(st.value.func, "self.deltaToTmunu") and len(st.targets) == 1:
+                t = st.targets[0]
+                if isinstance(t, ast.Tuple) and len(t.elts) == 2 and all(isinstance(e, ast.Name) for e in t.elts):
+                    self.out = (t.elts[0].id, t.elts[1].id)
+                elif isinstance(t, ast.Name):
+                    self.out = (f"{t.id}[0]", f"{t.id}[1]")
+        if self.out is None:
+            raise AnchorMissing("findPlasmaProfilePoint: the (T30, T33) result of self.deltaToTmunu(...) not found")
+        self.S1 = f"{self.C1} - {self.out[0]}"
+        self.S2 = f"{self.C2} - {self.out[1]}"
+        # every evaluation of the residual / of the velocity, also inside lambdas and local closures
+        self.lhs_calls = sorted([c for c in ast.walk(fp.node) if isinstance(c, ast.Call) and eqx(c.func, "self.temperatureProfileEqLHS")], key=lambda c: (c.lineno, c.col_offset))
+        self.vel_calls = sorted([c for c in ast.walk(fp.node) if isinstance(c, ast.Call) and eqx(c.func, "self.plasmaVelocity")], key=lambda c: (c.lineno, c.col_offset))
+        if not self.lhs_calls:
+            raise AnchorMissing("findPlasmaProfilePoint: no call of self.temperatureProfileEqLHS found")
+
+    # -- the residual as a function of the temperature alone
+    def residual_of(self, T: str) -> str:
+        return f"self.temperatureProfileEqLHS({self.F}, {self.D}, {T}, {self.S1}, {self.S2})"
+
+    def callable_body(self, f):
+        """(parameter, body) of a one-parameter callable expression: a lambda, or the name of a local closure with a straight-line body"""
+        S, fp = self.S, self.fp
+        f = self.cx.resolve(f, helpers=False) if isinstance(f, ast.Name) and f.id in self.cx.local_defs() else f
+        if isinstance(f, ast.Lambda) and len(f.args.args) == 1 and not f.args.defaults:
+            return f.args.args[0].arg, f.body
+        if isinstance(f, ast.Name):
+            q = f"{EOM}.findPlasmaProfilePoint.{f.id}"
+            if S.has_func(q):
+                fi = S.func(q)
+                prm = fi.params()
+                body = [st for st in fi.node.body if not (isinstance(st, ast.Expr) and isinstance(st.value, ast.Constant) and isinstance(st.value.value, str))]
+                rebound = sum(1 for x in own_nodes(fp.node) if isinstance(x, (ast.Assign, ast.AugAssign, ast.AnnAssign)) and f.id in {t.id for t in ast.walk(x) if isinstance(t, ast.Name) and isinstance(t.ctx, ast.Store)})
+                if len(prm) == 1 and not fi.node.args.defaults and body and isinstance(body[-1], ast.Return) and body[-1].value is not None \
+                        and all(isinstance(st, (ast.Assign, ast.AnnAssign)) for st in body[:-1]) and not rebound:
+                    return prm[0], Ctx(S, fi).resolve(body[-1].value, keep={prm[0]}, helpers=False)
+        return None
+
+    def is_residual(self, f) -> bool:
+        """f is (a spelling of) T -> temperatureProfileEqLHS(fields, dPhidz, T, c1 - T30out, c2 - T33out) with this point's data"""
+        pb = self.callable_body(f)
+        return pb is not None and eqx(pb[1], self.residual_of(pb[0]), self.cx)
+
+    def residual_at(self, e):
+        """if e evaluates the residual at some temperature: that temperature expression (else None)"""
+        if isinstance(e, ast.Call) and eqx(e.func, "self.temperatureProfileEqLHS"):
+            T = kwarg(e, "T", 2)
+            if T is not None and eqx(e, self.residual_of(n(T)), self.cx):
+                return T
+            return None
+        if isinstance(e, ast.Call) and len(e.args) == 1 and not e.keywords and self.is_residual(e.func):
+            return e.args[0]
+        return None
+
+
+def _base(name: str) -> str:
+    if name in ROLE_NAMES:
+        return name
+    b = name.rstrip("0123456789")
+    return b[:-5] if b.endswith("Input") and len(b) > 5 else b
+
+
+def _role_map(fi, outer: dict | None = None) -> dict:
+    """local name -> role (None: no role established).  Parameters carry the role their name declares (API); a local gets the role of what
+    is assigned to it: a tuple position of findHydroBoundaries / wallProfile, a phase location, `c1 - ...` (s1), `c2 - ...` (s2), a copy."""
+    roles: dict = dict(outer or {})
+    for p in fi.params():
+        roles[p] = _base(p)
+    assigned: dict[str, list] = {}
+
+    def add(name, what):
+        assigned.setdefault(name, []).append(what)
+
+    for st in own_nodes(fi.node):
+        tv = None
+        if isinstance(st, ast.Assign):
+            tv = [(t, st.value) for t in st.targets]
+        elif isinstance(st, ast.AnnAssign) and st.value is not None:
+            tv = [(st.target, st.value)]
+        elif isinstance(st, ast.AugAssign) and isinstance(st.target, ast.Name):
+            add(st.target.id, ("none",))
+        elif isinstance(st, (ast.For, ast.comprehension)):
+            for x in ast.walk(st.target):
+                if isinstance(x, ast.Name):
+                    add(x.id, ("none",))
+        elif isinstance(st, ast.NamedExpr) and isinstance(st.target, ast.Name):
+            add(st.target.id, ("none",))
+        for t, v in tv or []:
+            if isinstance(t, ast.Name):
+                add(t.id, ("expr", v))
+            elif isinstance(t, (ast.Tuple, ast.List)):
+                short = (dotted(v.func) or "").split(".")[-1] if isinstance(v, ast.Call) else ""
+                for i, e in enumerate(t.elts):
+                    if isinstance(e, ast.Name):
+                        add(e.id, ("role", RET_ROLES[short][i]) if short in RET_ROLES and i < len(RET_ROLES[short]) else ("none",))
+                    else:
+                        for x in ast.walk(e):
+                            if isinstance(x, ast.Name) and isinstance(x.ctx, ast.Store):
+                                add(x.id, ("none",))
+    params = set(fi.params())
+    for nm in assigned:
+        if nm not in params:
+            roles[nm] = None
+
+    def expr_role(v):
+        if isinstance(v, ast.Name):
+            return roles.get(v.id)
+        if isinstance(v, ast.BinOp) and isinstance(v.op, ast.Sub) and isinstance(v.left, ast.Name):
+            return {"c1": "s1", "c2": "s2"}.get(roles.get(v.left.id))
+        if isinstance(v, ast.Attribute) and v.attr == "fieldsAtMinimum" and isinstance(v.value, ast.Call):
+            d = dotted(v.value.func) or ""
+            return "vevLowT" if d.endswith(".freeEnergyLow") else "vevHighT" if d.endswith(".freeEnergyHigh") else None
+        return None
+
+    for _ in range(4):
+        for nm, hows in assigned.items():
+            if nm in params:
+                # a parameter that is reassigned keeps its declared role only if every assignment agrees
+                rs = {h[1] if h[0] == "role" else expr_role(h[1]) if h[0] == "expr" else None for h in hows} | {roles[nm]}
+            else:
+                rs = {h[1] if h[0] == "role" else expr_role(h[1]) if h[0] == "expr" else None for h in hows}
+            if nm in params and roles[nm] not in ROLE_NAMES:
+                continue
+            roles[nm] = rs.pop() if len(rs) == 1 else None
+    return roles
+
+
+def r04_3(chk: Check, P: "_Point"):
     S = chk.src
-    fp = S.func(f"{EOM}.findPlasmaProfilePoint")
+    fp, cx = P.fp, P.cx
     chk.touch(fp.name)
-    tup = None
-    for st in own_nodes(fp.node):
-        if isinstance(st, ast.Assign) and isinstance(st.value, ast.Call) and n(st.value.func) == "self.deltaToTmunu" and isinstance(st.targets[0], ast.Tuple):
-            tup = [n(e) for e in st.targets[0].elts]
-    s = {}
-    for st in own_nodes(fp.node):
-        if isinstance(st, ast.Assign) and isinstance(st.targets[0], ast.Name) and isinstance(st.value, ast.BinOp) \
-                and isinstance(st.value.op, ast.Sub) and tup and n(st.value.right) in tup:
-            s[st.targets[0].id] = (n(st.value.left), tup.index(n(st.value.right)))
+    # s1, s2: the values handed to the residual (positions 3, 4) and to the velocity (position 2)
+    bad = []
+    for c in P.lhs_calls:
+        a1, a2 = kwarg(c, "s1", 3), kwarg(c, "s2", 4)
+        if not (a1 is not None and eqx(a1, P.S1, cx)):
+            bad.append(f"line {c.lineno}: s1 = `{n(a1) if a1 is not None else ''}`")
+        if not (a2 is not None and eqx(a2, P.S2, cx)):
+            bad.append(f"line {c.lineno}: s2 = `{n(a2) if a2 is not None else ''}`")
+    for c in P.vel_calls:
+        a1 = kwarg(c, "s1", 2)
+        if not (a1 is not None and eqx(a1, P.S1, cx)):
+            bad.append(f"line {c.lineno}: plasmaVelocity s1 = `{n(a1) if a1 is not None else ''}`")
     chk.ob("R04.3", fp.where(), "s1 = c1 - T30_out and s2 = c2 - T33_out (tuple positions 0, 1 of deltaToTmunu)",
-           s == {"s1": ("c1", 0), "s2": ("c2", 1)}, str(s), key="s1s2")
+           not bad, "; ".join(bad)[:300], key="s1s2")
     # role agreement of arguments through the EOM call chain
     methods = S.cls(EOM).methods
-    n_calls = 0
-    for cname, fi in sorted(methods.items()):
-        for c in own_nodes(fi.node):
-            if not (isinstance(c, ast.Call) and isinstance(c.func, ast.Attribute) and isinstance(c.func.value, ast.Name)
-                    and c.func.value.id == "self" and c.func.attr in methods):
-                continue
-            callee = methods[c.func.attr]
-            params = [p for p in callee.params() if p != "self"]
-            bad = []
-            checked = 0
-            pairs = list(zip(params, c.args)) + [(k.arg, k.value) for k in c.keywords if k.arg]
-            for p, a in pairs:
-                if not isinstance(a, ast.Name):
+    for cname, fm in sorted(methods.items()):
+        scopes = [(fm, _role_map(fm))]
+        for q, f_ in S.modules[fm.module].funcs.items():
+            par = f_.parent
+            chain = []
+            while par is not None:
+                chain.append(par)
+                par = par.parent
+            if chain and chain[-1] is fm:
+                # closures see the enclosing function's locals
+                outer = _role_map(fm)
+                for anc in reversed(chain[:-1]):
+                    outer = _role_map(anc, outer)
+                scopes.append((f_, _role_map(f_, outer)))
+        for fi, roles in scopes:
+            for c in sorted([x for x in own_nodes(fi.node) if isinstance(x, ast.Call)], key=lambda x: (-x.lineno, -x.col_offset)):
+                if not (isinstance(c.func, ast.Attribute) and isinstance(c.func.value, ast.Name) and c.func.value.id == "self" and c.func.attr in methods):
                     continue
-                an = ALIASES.get(a.id, a.id)
-                # strip numeric suffixes used for iterates (wallParams1, boltzmannResults2)
-                base_a = an.rstrip("0123456789")
-                base_p = p.rstrip("0123456789")
-                if base_p in ROLE_NAMES or base_a in ROLE_NAMES:
-                    checked += 1
-                    if base_a != base_p and not (base_p + "Input" == base_a or base_a + "Input" == base_p):
-                        bad.append(f"parameter `{p}` receives `{a.id}`")
-            if checked:
-                n_calls += 1
-                chk.ob("R04.3", fi.where(c), f"{cname} -> {c.func.attr}: boundary data (c1, c2, vMid, T+, T-, vevs, s1, s2) are passed to the parameters "
-                       "of the same role", not bad, "; ".join(bad), key=f"roles|{cname}->{c.func.attr}|{c.lineno - fi.node.lineno if False else len(bad)}")
+                callee = methods[c.func.attr]
+                params = _params(callee)
+                bad = []
+                checked = 0
+                pairs = list(zip(params, c.args)) + [(k.arg, k.value) for k in c.keywords if k.arg]
+                for p, a in pairs:
+                    if not isinstance(a, ast.Name):
+                        continue
+                    role_a = roles.get(a.id)
+                    base_p = _base(p)
+                    if base_p in ROLE_NAMES or role_a in ROLE_NAMES:
+                        checked += 1
+                        if role_a != base_p:
+                            bad.append(f"parameter `{p}` receives `{a.id}` ({'role ' + role_a if role_a else 'no role established'})")
+                if checked:
+                    chk.ob("R04.3", fi.where(c), f"{cname} -> {c.func.attr}: boundary data (c1, c2, vMid, T+, T-, vevs, s1, s2) are passed to the parameters "
+                           "of the same role", not bad, "; ".join(bad), key=f"roles|{cname}->{c.func.attr}|{len(bad)}")
     # wallPressure unpacks findHydroBoundaries in its return order
     fw = S.func(f"{EOM}.wallPressure")
     chk.touch(fw.name)
+    cw = Ctx(S, fw)
     unp = [st for st in own_nodes(fw.node) if isinstance(st, ast.Assign) and isinstance(st.value, ast.Call)
-           and n(st.value.func) == "self.hydrodynamics.findHydroBoundaries" and isinstance(st.targets[0], ast.Tuple)]
-    ok = len(unp) == 1 and [n(e) for e in unp[0].targets[0].elts] == ["c1", "c2", "Tplus", "Tminus", "velocityMid"] and n(unp[0].value.args[0]) == "wallVelocity"
+           and eqx(st.value.func, "self.hydrodynamics.findHydroBoundaries") and isinstance(st.targets[0], ast.Tuple)]
+    ok = len(unp) == 1 and len(unp[0].targets[0].elts) == 5 and all(isinstance(e, ast.Name) for e in unp[0].targets[0].elts) \
+        and eqx(kwarg(unp[0].value, "vwTry", 0), _params(fw)[0], cw)
+    if ok:
+        # the element at position i is handed on under the role of position i (at least once; every hand-over is checked above)
+        names = [e.id for e in unp[0].targets[0].elts]
+        handed = {}
+        for c in own_nodes(fw.node):
+            if isinstance(c, ast.Call) and isinstance(c.func, ast.Attribute) and isinstance(c.func.value, ast.Name) and c.func.value.id == "self" and c.func.attr in methods:
+                prm = _params(methods[c.func.attr])
+                for p, a in list(zip(prm, c.args)) + [(k.arg, k.value) for k in c.keywords if k.arg]:
+                    if isinstance(a, ast.Name):
+                        handed.setdefault(a.id, set()).add(_base(p))
+        ok = len(set(names)) == 5 and all(handed.get(nm) == {role} for nm, role in zip(names, RET_ROLES["findHydroBoundaries"]))
     chk.ob("R04.3", fw.where(), "wallPressure unpacks findHydroBoundaries(wallVelocity) as (c1, c2, T+, T-, vMid), its return order", ok, key="unpack")
     fo = S.func(f"{EOM}.findPlasmaProfile")
     chk.touch(fo.name)
+    co = Ctx(S, fo)
     call = [c for c in calls_in(fo.node, "findPlasmaProfilePoint")]
-    ok = len(call) == 1 and [n(a) for a in call[0].args] == ["index", "c1", "c2", "velocityMid", "fields.getFieldPoint(index)",
-                                                             "dPhidz.getFieldPoint(index)", "offEquilDeltas", "Tplus", "Tminus"]
+    po = _params(fo)
+    ok = False
+    if len(call) == 1 and len(po) == 8:
+        c1, c2, vmid, fields, dphi, deltas, tp, tm = po
+        b = match(call[0], f"self.findPlasmaProfilePoint(__i, {c1}, {c2}, {vmid}, {fields}.getFieldPoint(__i), {dphi}.getFieldPoint(__i), {deltas}, {tp}, {tm})",
+                  _LoopCtx(S, fo))
+        # the index is the variable of the grid loop around the call
+        ok = b is not None and any(isinstance(lp, ast.For) and isinstance(lp.target, ast.Name) and lp.target.id == b["i"] and any(y is call[0] for y in ast.walk(lp))
+                                   for lp in own_nodes(fo.node))
     chk.ob("R04.3", fo.where(), "findPlasmaProfile solves every grid index with that index's field point, gradient and moments", ok,
            n(call[0])[:200] if call else "", key="per-point")
     chk.floor("R04.3", 8)
 
 
-def r04_4(chk: Check):
+class _LoopCtx(Ctx):
+    """Ctx that also looks through a temporary assigned once inside a loop body from loop-invariant data and the loop variable
+    (the value is recomputed in every iteration before it is used, so replacing the name by its definition is exact)"""
+
+    def local_defs(self) -> dict:
+        if self._defs is not None:
+            return self._defs
+        defs = dict(super().local_defs())
+        fn = self.fi.node
+        count: dict[str, int] = {}
+        for x in own_nodes(fn):
+            for t in ast.walk(x) if isinstance(x, (ast.Assign, ast.AugAssign, ast.AnnAssign, ast.For, ast.With, ast.NamedExpr, ast.comprehension)) else []:
+                if isinstance(t, ast.Name) and isinstance(t.ctx, ast.Store):
+                    count[t.id] = count.get(t.id, 0) + 1
+        params = set(self.fi.params())
+        for lp in own_nodes(fn):
+            if not isinstance(lp, ast.For):
+                continue
+            for st in lp.body:       # top level of the loop body only: executed in every iteration, before the statements after it
+                if isinstance(st, ast.Assign) and len(st.targets) == 1 and isinstance(st.targets[0], ast.Name):
+                    nm = st.targets[0].id
+                    used_before = any(isinstance(y, ast.Name) and y.id == nm for s0 in lp.body[:lp.body.index(st)] for y in ast.walk(s0))
+                    operands = {y.id for y in ast.walk(st.value) if isinstance(y, ast.Name)}
+                    stable = all(count.get(o, 0) == 0 or (isinstance(lp.target, ast.Name) and o == lp.target.id and count.get(o) == 1) for o in operands)
+                    if count.get(nm) == 1 and nm not in params and not used_before and stable and not any(isinstance(y, ast.Call) and not isinstance(y.func, ast.Attribute) for y in ast.walk(st.value)):
+                        defs[nm] = st.value
+        self._defs = defs
+        return defs
+
+
+def _positive_when(test, T: str):
+    """True: `test` holds iff T > 0;  False: `test` holds iff T <= 0;  None: neither"""
+    if isinstance(test, ast.UnaryOp) and isinstance(test.op, ast.Not):
+        r = _positive_when(test.operand, T)
+        return None if r is None else not r
+    if eqx(test, f"{T} > 0"):
+        return True
+    if eqx(test, f"{T} <= 0"):
+        return False
+    return None
+
+
+def r04_4(chk: Check, P: "_Point"):
     S = chk.src
-    fp = S.func(f"{EOM}.findPlasmaProfilePoint")
+    fp = P.fp
     g = CFG(fp.node)
     rets = [x for x in g.nodes if isinstance(x, ast.Return)]
+
+    def name_def(at, name):
+        """the single plain assignment `name = value` reaching `at` (else None)"""
+        dd = g.reaching_defs(at, name)
+        if len(dd) == 1 and isinstance(dd[0], ast.Assign) and len(dd[0].targets) == 1 and isinstance(dd[0].targets[0], ast.Name):
+            return dd[0]
+        return None
+
+    def solver_result(at, e, solver):
+        """e is the result object of a scipy `solver` call (directly, or a local holding it)"""
+        hop = 0
+        while isinstance(e, ast.Name) and hop < 4:
+            d = name_def(at, e.id)
+            if d is None:
+                return False
+            at, e = d, d.value
+            hop += 1
+        return isinstance(e, ast.Call) and (dotted(e.func) or "").split(".")[-1] == solver
+
+    def classify(at, val):
+        hop = 0
+        while isinstance(val, ast.Name) and hop < 4:
+            d = name_def(at, val.id)
+            if d is None:
+                break
+            at, val = d, d.value
+            hop += 1
+        if isinstance(val, ast.Attribute) and val.attr == "root" and solver_result(at, val.value, "root_scalar"):
+            return "root", val
+        if isinstance(val, ast.Attribute) and val.attr == "x" and solver_result(at, val.value, "minimize_scalar"):
+            return "minimiser.x", val
+        return "other", val
+
     seen = 0
     for r in sorted(rets, key=lambda x: x.lineno):
         v = r.value
         first = v.elts[0] if isinstance(v, ast.Tuple) else v
         if isinstance(first, ast.Constant) and first.value == 0:
             seen += 1
-            chk.ob("R04.4", fp.where(r), "failure exit returns the non-positive sentinel temperature (0, 0)", n(v).strip("()") == "0, 0", n(v), key="exit|sentinel")
+            chk.ob("R04.4", fp.where(r), "failure exit returns the non-positive sentinel temperature (0, 0)", eqx(v, "(0, 0)"), n(v), key="exit|sentinel")
             continue
-        prov = "unknown"
+        provs: dict[str, list] = {}
         if isinstance(first, ast.Name):
-            defs = g.reaching_defs(r, first.id)
-            srcs = set()
-            for d in defs:
-                if isinstance(d, ast.Assign):
-                    val = d.value
-                    hop = 0
-                    while isinstance(val, ast.Name) and hop < 3:
-                        dd = g.reaching_defs(d, val.id)
-                        if len(dd) == 1 and isinstance(dd[0], ast.Assign):
-                            d, val = dd[0], dd[0].value
-                        hop += 1
-                    srcs.add(n(val))
-            if srcs and all("root_scalar(" in s_ and s_.endswith(".root") for s_ in srcs):
-                prov = "root"
-            elif srcs:
-                prov = "; ".join(sorted(srcs))
-        seen += 1
-        if prov == "root":
-            chk.ob("R04.4", fp.where(r), "returned temperature is the root of the T33 residual", True, key="exit|root")
-        else:
-            # a non-root temperature may only be returned together with a failure signal
-            lowered = any(isinstance(x, ast.Assign) and n(x.targets[0]) == "self.successTemperatureProfile" and n(x.value) == "False"
-                          for x in g.nodes if r in g.reachable(x, include_start=True)) if False else False
-            chk.ob("R04.4", fp.where(r), "a positive temperature that is not a root of the T33 residual is returned only together with a failure signal",
-                   lowered, f"returns `{prov}` (the minimiser of the residual) while successTemperatureProfile stays True",
-                   key=f"nonroot-return|findPlasmaProfilePoint|{prov[:40]}")
+            for d in g.reaching_defs(r, first.id):
+                if isinstance(d, ast.Assign) and len(d.targets) == 1 and isinstance(d.targets[0], ast.Name):
+                    k, val = classify(d, d.value)
+                    provs.setdefault(k, []).append(n(val))
+                else:
+                    provs.setdefault("other", []).append("<unknown>" if d is CFG.ENTRY else n(d))
+        elif first is not None:
+            k, val = classify(r, first)
+            provs.setdefault(k, []).append(n(val))
+        if not provs:
+            provs["other"] = ["<unknown>"]
+        for k in sorted(provs):
+            seen += 1
+            if k == "root":
+                chk.ob("R04.4", fp.where(r), "returned temperature is the root of the T33 residual", True, key="exit|root")
+            else:
+                # a non-root temperature may only be returned together with a failure signal (none is given here: the flag of the point solver
+                # is lowered by the caller for the sentinel only)
+                shown = "; ".join(sorted(set(provs[k])))
+                chk.ob("R04.4", fp.where(r), "a positive temperature that is not a root of the T33 residual is returned only together with a failure signal",
+                       False, f"returns `{shown}` ({'the minimiser of the residual' if k == 'minimiser.x' else 'not a root'}) while successTemperatureProfile stays True",
+                       key=f"nonroot-return|findPlasmaProfilePoint|{k}")
     if seen < 3:
         raise AnchorMissing("findPlasmaProfilePoint: fewer than 3 exits found")
     # caller lowers the flag for the sentinel
     fo = S.func(f"{EOM}.findPlasmaProfile")
     go = CFG(fo.node)
-    low = [x for x in go.nodes if isinstance(x, ast.Assign) and n(x.targets[0]) == "self.successTemperatureProfile" and n(x.value) == "False"]
+    FLAG = "self.successTemperatureProfile"
+    low = [x for x in go.nodes if isinstance(x, ast.Assign) and eqx(x.targets[0], FLAG) and eqx(x.value, "False")]
+    # the temperature of the point: element 0 of the point solver's result
+    TN = None
+    for x in go.nodes:
+        if isinstance(x, ast.Assign) and len(x.targets) == 1 and isinstance(x.value, ast.Call) and eqx(x.value.func, "self.findPlasmaProfilePoint"):
+            t = x.targets[0]
+            if isinstance(t, ast.Tuple) and t.elts and isinstance(t.elts[0], ast.Name):
+                TN = t.elts[0].id
+            elif isinstance(t, ast.Name):
+                TN = f"{t.id}[0]"
     ok = False
-    for guards, st in walk_guarded(fo.node):
-        if st in low:
-            ok = any((not pol and n(t).replace(" ", "") == "T>0") or (pol and n(t).replace(" ", "") in ("T<=0", "notT>0")) for t, pol in guards if not isinstance(t, tuple))
+    if TN is not None and len(low) == 1:
+        tests = [(t, _positive_when(t, TN)) for t in go.nodes if go.kind.get(t) == "test"]
+        tests = [(t, pw) for t, pw in tests if pw is not None]
+        loops = [x for x in go.nodes if go.kind.get(x) == "iter"]
+        for t, pw in tests:
+            only = go.must_pass(CFG.ENTRY, low[0], lambda q: q is t) and not go.reaches(go.branch(t, pw), low[0], avoid=lambda q: q is t)
+            always = all(b is low[0] or all(go.must_pass(b, tgt, lambda q: q is low[0]) for tgt in loops + [CFG.EXIT]) for b in go.branch(t, not pw))
+            ok = ok or (only and always and bool(go.branch(t, not pw)))
     chk.ob("R04.4", fo.where(), "findPlasmaProfile lowers successTemperatureProfile when a point returns T <= 0", ok and len(low) == 1, key="flag-lowered")
-    res = [x for x in go.nodes if isinstance(x, ast.Assign) and n(x.targets[0]) == "self.successTemperatureProfile" and n(x.value) == "True"]
+    res = [x for x in go.nodes if isinstance(x, ast.Assign) and eqx(x.targets[0], FLAG) and eqx(x.value, "True")]
     loops = [x for x in go.nodes if go.kind.get(x) == "iter"]
     ok = len(res) == 1 and bool(loops) and all(go.must_pass(CFG.ENTRY, l_, lambda q: q in res) for l_ in loops)
     chk.ob("R04.4", fo.where(), "the flag is reset to True before the grid loop of every profile computation", ok, key="flag-reset")
     chk.floor("R04.4", 5)
 
 
+def _unwrap(e):
+    """the scalar / array inside `np.array([x])`, `[x]`, `np.array(x)`, `np.atleast_1d(x)`, `x.view(...)`"""
+    while True:
+        if isinstance(e, ast.Call) and (dotted(e.func) or "") in ("np.array", "np.asarray", "np.atleast_1d") and len(e.args) == 1 and not e.keywords:
+            e = e.args[0]
+        elif isinstance(e, ast.Call) and isinstance(e.func, ast.Attribute) and e.func.attr == "view" and dotted(e.func) is None or \
+                (isinstance(e, ast.Call) and isinstance(e.func, ast.Attribute) and e.func.attr == "view" and (dotted(e.func) or "").split(".")[0] not in ("np", "numpy")):
+            e = e.func.value
+        elif isinstance(e, (ast.List, ast.Tuple)) and len(e.elts) == 1:
+            e = e.elts[0]
+        else:
+            return e
+
+
 def r04_5(chk: Check):
     S = chk.src
     fi = S.func(f"{EOM}._intermediatePressureResults")
     chk.touch(fi.name)
-    cats = {}
+    ci = Ctx(S, fi)
+    # roles: (temperature, velocity) profile = result of findPlasmaProfile (or the *Input parameters), fields = wallProfile(...)[0]
+    TPn, VPn, Fn = set(), set(), set()
     for st in own_nodes(fi.node):
-        tgt = None
-        val = None
-        if isinstance(st, ast.AnnAssign) and isinstance(st.target, ast.Name):
-            tgt, val = st.target.id, st.value
-        elif isinstance(st, ast.Assign) and isinstance(st.targets[0], ast.Name):
-            tgt, val = st.targets[0].id, st.value
-        if tgt and tgt.endswith("WithEndpoints") and val is not None:
-            for c in ast.walk(val):
-                if isinstance(c, ast.Call) and (dotted(c.func) or "").endswith("concatenate") and isinstance(c.args[0], ast.Tuple):
-                    cats[tgt] = [n(e) for e in c.args[0].elts]
-    want = {"TWithEndpoints": ("Tminus", "temperatureProfile", "Tplus"), "fieldsWithEndpoints": ("vevLowT", "fields", "vevHighT"),
-            "vWithEndpoints": ("velocityProfile[0]", "velocityProfile", "velocityProfile[-1]")}
-    for k, (a, b, c) in want.items():
-        e = cats.get(k)
-        ok = e is not None and len(e) == 3 and a in e[0] and b in e[1] and c in e[2] and (k != "TWithEndpoints" or "Tplus" not in e[0])
-        chk.ob("R04.5", fi.where(), f"{k} = ({a}, {b}, {c}): behind-the-wall value first, in-front value last", ok, str(e), key=f"orientation|{k}")
+        if isinstance(st, ast.Assign) and isinstance(st.targets[0], ast.Tuple) and isinstance(st.value, ast.Call) and all(isinstance(e, ast.Name) for e in st.targets[0].elts):
+            names = [e.id for e in st.targets[0].elts]
+            if eqx(st.value.func, "self.findPlasmaProfile") and len(names) == 2:
+                TPn.add(names[0])
+                VPn.add(names[1])
+            elif eqx(st.value.func, "self.wallProfile") and len(names) == 2:
+                Fn.add(names[0])
+    if len(TPn) != 1 or len(VPn) != 1 or len(Fn) != 1:
+        raise AnchorMissing("_intermediatePressureResults: the unpacked results of findPlasmaProfile / wallProfile not found")
+    TP, VP, F = TPn.pop(), VPn.pop(), Fn.pop()
+    prm = _params(fi)
+    VL, VH, VMID, TPL, TMI = prm[1], prm[2], prm[5], prm[7], prm[8]
+    cats = {}
+    for c in calls_in(fi.node, "concatenate"):
+        if eqx(c.func, "np.concatenate") and c.args and isinstance(c.args[0], (ast.Tuple, ast.List)) and len(c.args[0].elts) == 3:
+            parts = [_unwrap(ci.resolve(e, keep={TP, VP, F})) for e in c.args[0].elts]
+            kind = "T" if eqx(parts[1], TP) else "v" if eqx(parts[1], VP) else "fields" if eqx(parts[1], F) else None
+            if kind and kind not in cats:
+                cats[kind] = (c, parts)
+            elif kind:
+                cats[kind] = (None, [])
+    want = {"TWithEndpoints": ("T", TMI, "temperatureProfile", TPL), "fieldsWithEndpoints": ("fields", VL, "fields", VH),
+            "vWithEndpoints": ("v", f"{VP}[0]", "velocityProfile", f"{VP}[-1]")}
+    for k, (kind, a, b, c) in want.items():
+        call, e = cats.get(kind, (None, []))
+        ok = call is not None and len(e) == 3 and eqx(e[0], a) and eqx(e[2], c)
+        chk.ob("R04.5", fi.where(), f"{k} = ({a}, {b}, {c}): behind-the-wall value first, in-front value last", ok, str([n(x) for x in e]), key=f"orientation|{k}")
     bg = [c for c in calls_in(fi.node, "BoltzmannBackground")]
-    ok = len(bg) == 1 and [n(a) for a in bg[0].args] == ["velocityMid", "vWithEndpoints", "fieldsWithEndpoints", "TWithEndpoints"]
+    ok = len(bg) == 1 and eqx(kwarg(bg[0], "velocityMid", 0), VMID, ci)
+    if ok:
+        for pname, pos, kind in (("velocityProfile", 1, "v"), ("fieldProfiles", 2, "fields"), ("temperatureProfile", 3, "T")):
+            a = kwarg(bg[0], pname, pos)
+            call = cats.get(kind, (None, []))[0]
+            ok = ok and a is not None and call is not None and same(_unwrap(ci.resolve(a, keep={TP, VP, F})), call, ci)
     chk.ob("R04.5", fi.where(), "BoltzmannBackground(velocityMid, v, fields, T) receives the arrays in its parameter order", ok, key="background-args")
     fb = S.func("containers:BoltzmannBackground.__init__")
     chk.touch(fb.name)
@@ -219,34 +529,96 @@ def r04_5(chk: Check):
     chk.floor("R04.5", 5)
 
 
-def r04_6(chk: Check):
+def r04_6(chk: Check, P: "_Point"):
     S = chk.src
-    fp = S.func(f"{EOM}.findPlasmaProfilePoint")
-    lam = [x for x in own_nodes(fp.node) if isinstance(x, ast.Lambda)]
-    bodies = {n(l.body) for l in lam}
+    fp, cx = P.fp, P.cx
+    g = CFG(fp.node)
+    mn = calls_in(fp.node, "minimize_scalar")
+    rs = calls_in(fp.node, "root_scalar")
+    fmin = kwarg(mn[0], "fun", 0) if len(mn) == 1 else None
+    froot = kwarg(rs[0], "f", 0) if len(rs) == 1 else None
+    shown = {n(x) if not isinstance(x, ast.Lambda) else n(x.body) for x in (fmin, froot) if x is not None}
     chk.ob("R04.6", fp.where(), "the minimised function and the root-solved function are the same residual with the same (fields, dPhidz, s1, s2)",
-           len(lam) == 2 and bodies == {"self.temperatureProfileEqLHS(fields, dPhidz, T, s1, s2)"}, str(bodies), key="same-function")
-    other = [c for c in calls_in(fp.node, "temperatureProfileEqLHS") if [n(a) for a in c.args[:2] + c.args[3:]] != ["fields", "dPhidz", "s1", "s2"]]
+           fmin is not None and froot is not None and P.is_residual(fmin) and P.is_residual(froot), str(shown), key="same-function")
+    other = []
+    for c in P.lhs_calls:
+        T = kwarg(c, "T", 2)
+        if T is None or not eqx(c, P.residual_of(n(T)), cx):
+            other.append(c)
     chk.ob("R04.6", fp.where(), "every evaluation of the residual in findPlasmaProfilePoint uses this point's data", not other,
            "; ".join(n(c) for c in other), key="same-data")
-    mn = calls_in(fp.node, "minimize_scalar")
-    ok = len(mn) == 1 and same_term(S, "equationOfMotion", "EOM", kwarg(mn[0], "bounds"), "[0, 2 * max(Tplus, Tminus)]")
+    ok = len(mn) == 1 and same_term(S, "equationOfMotion", "EOM", cx.resolve(kwarg(mn[0], "bounds", 2)) if kwarg(mn[0], "bounds", 2) is not None else None,
+                                    f"[0, 2 * max({P.TP}, {P.TM})]") if len(mn) == 1 and kwarg(mn[0], "bounds", 2) is not None else False
     chk.ob("R04.6", fp.where(), "the minimum is searched on [0, 2 max(T+, T-)]", bool(ok), key="min-bounds")
-    rs = calls_in(fp.node, "root_scalar")
-    ok = len(rs) == 1 and n(kwarg(rs[0], "bracket")).replace(" ", "") == "(tempAtMinimum,testTemp)"
-    chk.ob("R04.6", fp.where(), "the root is bracketed between the minimiser side and the test temperature", ok, key="bracket")
-    pv = [c for c in calls_in(fp.node, "plasmaVelocity")]
-    ok = len(pv) == 2 and all([n(a) for a in c.args] == ["fields", "T", "s1"] for c in pv)
-    chk.ob("R04.6", fp.where(), "the returned velocity is plasmaVelocity(fields, T, s1) at the returned temperature", ok, key="velocity")
+    # bracket (A, B): A starts at the minimiser and B = A * factor; both are moved by the same factor while residual(B) < 0
+    ok = False
+    br = kwarg(rs[0], "bracket") if len(rs) == 1 else None
+    rs_node = g.node_of(rs[0]) if len(rs) == 1 else None
+    if br is not None and isinstance(br, (ast.Tuple, ast.List)) and len(br.elts) == 2 and all(isinstance(e, ast.Name) for e in br.elts) and rs_node is not None and len(mn) == 1:
+        A, B = br.elts[0].id, br.elts[1].id
+        mres = [st for st in own_nodes(fp.node) if isinstance(st, ast.Assign) and st.value is mn[0] and isinstance(st.targets[0], ast.Name)]
+        M = mres[0].targets[0].id if len(mres) == 1 else None
+
+        def split(name):
+            init, steps, rest = [], [], []
+            for d in g.reaching_defs(rs_node, name):
+                if isinstance(d, ast.AugAssign) and isinstance(d.op, ast.Mult):
+                    steps.append(d.value)
+                elif isinstance(d, ast.Assign) and (b_ := match(d.value, f"{name} * __k")) is not None:
+                    steps.append(ast.Name(id=b_["k"], ctx=ast.Load()))
+                elif isinstance(d, ast.Assign):
+                    init.append(d.value)
+                else:
+                    rest.append(d)
+            return init, steps, rest
+        ia, sa, ra = split(A)
+        ib, sb, rb = split(B)
+        okA = M is not None and A != B and len(ia) == 1 and eqx(ia[0], f"{M}.x") and not ra
+        okB = len(ib) == 1 and not rb and bool(sa) and bool(sb) and all(isinstance(k, ast.Name) for k in sa + sb) and len({k.id for k in sa + sb}) == 1
+        if okA and okB:
+            K = sa[0].id
+            okB = match(ib[0], f"{A} * {K}") is not None
+            # the loop that moves the bracket runs while residual(B) < 0, and the root solve is reached only through its exit
+            tests = [t for t in g.nodes if g.kind.get(t) == "test" and isinstance(t, ast.Compare) and len(t.ops) == 1
+                     and ((isinstance(t.ops[0], ast.Lt) and eqx(t.comparators[0], "0") and (tt := P.residual_at(t.left)) is not None and eqx(tt, B))
+                          or (isinstance(t.ops[0], ast.Gt) and eqx(t.left, "0") and (tt := P.residual_at(t.comparators[0])) is not None and eqx(tt, B)))]
+            okL = len(tests) == 1 and g.must_pass(CFG.ENTRY, rs_node, lambda q: q is tests[0]) \
+                and not g.reaches(g.branch(tests[0], True), rs_node, avoid=lambda q: q is tests[0])
+            ok = okA and okB and okL
+    chk.ob("R04.6", fp.where(), "the root is bracketed between the minimiser side and the test temperature", ok, n(br) if br is not None else "", key="bracket")
+    # velocity: every non-sentinel exit returns plasmaVelocity(fields, T, s1) at the returned temperature
+    okv = bool(P.vel_calls)
+    for c in P.vel_calls:
+        okv = okv and eqx(kwarg(c, "fields", 0), P.F, cx) and eqx(kwarg(c, "s1", 2), P.S1, cx)
+    nret = 0
+    for r in [x for x in g.nodes if isinstance(x, ast.Return)]:
+        v = r.value
+        if not (isinstance(v, ast.Tuple) and len(v.elts) == 2):
+            okv = False
+            continue
+        t, vel = v.elts
+        if isinstance(t, ast.Constant):
+            continue
+        nret += 1
+        at = r
+        if isinstance(vel, ast.Name):
+            dd = g.reaching_defs(r, vel.id)
+            if len(dd) == 1 and isinstance(dd[0], ast.Assign) and isinstance(dd[0].targets[0], ast.Name):
+                at, vel = dd[0], dd[0].value
+        good = isinstance(vel, ast.Call) and eqx(vel.func, "self.plasmaVelocity") and isinstance(t, ast.Name) and eqx(kwarg(vel, "T", 1), t.id) \
+            and (at is r or {id(d) for d in g.reaching_defs(at, t.id)} == {id(d) for d in g.reaching_defs(r, t.id)})
+        okv = okv and good
+    chk.ob("R04.6", fp.where(), "the returned velocity is plasmaVelocity(fields, T, s1) at the returned temperature", okv and nret >= 1, key="velocity")
     chk.floor("R04.6", 5)
 
 
 def rules(chk: Check) -> None:
     r04_12(chk)
-    r04_3(chk)
-    r04_4(chk)
+    P = _Point(chk.src)
+    r04_3(chk, P)
+    r04_4(chk, P)
     r04_5(chk)
-    r04_6(chk)
+    r04_6(chk, P)
     # the out-of-equilibrium stress components subtracted from c1, c2 are the direct moment expressions (shared with C13)
     from ..core import Remap
     from .c13 import r13_2
